@@ -159,6 +159,8 @@ pub struct Mach {
     /// handles the harness keeps alive until the next instruction (e.g. roots imported
     /// from a mutated file, so that the audit sees them)
     pub scratch: Vec<F>,
+    /// E2: handles produced by other simulated threads, with their model denotations
+    pub foreign: Vec<(F, Den)>,
 }
 
 impl Mach {
@@ -179,6 +181,7 @@ impl Mach {
             written: vec![],
             initial_nodes_for: initial_nodes,
             scratch: vec![],
+            foreign: vec![],
         }
     }
 
@@ -191,6 +194,7 @@ impl Mach {
         let substs = &self.substs;
         let mut extra = self.x.handles();
         extra.extend(self.scratch.iter());
+        extra.extend(self.foreign.iter().map(|x| &x.0));
         self.mref.with_manager_shared(|m| {
             let n = m.num_levels();
             let mut terms = HashMap::new();
@@ -331,17 +335,19 @@ impl Mach {
                 ctx.stats.bump("fault.gc");
                 ctx.stats.add("gc.collected", ret as u64);
                 let removed = (before_i + before_t) as i64 - (after_i + after_t) as i64;
-                if removed != ret as i64 {
+                if removed != ret as i64 && !ctx.concurrent {
                     ctx.violate(
                         &["C05"],
                         "gc-return",
                         format!("gc() returned {} but {} nodes disappeared ({}+{} -> {}+{})", ret, removed, before_i, before_t, after_i, after_t),
                     );
                 }
-                if gc1 <= gc0 {
+                if gc1 <= gc0 && !(ctx.concurrent && ret == 0) {
                     ctx.violate(&["C05", "C06"], "gc-count", format!("gc_count did not grow across gc(): {} -> {}", gc0, gc1));
                 }
-                ctx.obs.u64(ret as u64);
+                if !ctx.concurrent {
+                    ctx.obs.u64(ret as u64);
+                }
             }
             AddVars { k } => {
                 if model.n + *k as u32 > self.max_vars() {
@@ -560,6 +566,9 @@ impl Mach {
 
     /// Audits A1-A9, A11, A12 on a snapshot
     pub fn audit_impl(&mut self, ins: Option<&Instr>, model: &Model, ctx: &mut RunCtx) {
+        if let Some(f) = ctx.pre_audit {
+            f();
+        }
         let mut s = self.snapshot();
         let n = s.n;
         ctx.peak_inner = ctx.peak_inner.max(s.num_inner);
@@ -805,6 +814,38 @@ impl Mach {
                 }
             }
         }
+        // E2: handles returned to other threads: denotation and canonicity across threads
+        if !self.foreign.is_empty() {
+            let base = s.extra_handles.len() - self.foreign.len();
+            for (i, (_, md)) in self.foreign.iter().enumerate() {
+                let e = s.extra_handles[base + i];
+                match s.den(e) {
+                    Err(msg) => ctx.violate(&["C07", "C03"], "walk-failed", format!("foreign handle {}: {}", i, msg)),
+                    Ok(d) => {
+                        if &d != md {
+                            ctx.violate(&["C07", "C05"], "handle-changed", format!("handle {} returned to another thread now denotes {}, model says {}", i, d.short(), md.short()));
+                        }
+                    }
+                }
+            }
+            let mut all: Vec<(&F, &Den)> = self.foreign.iter().map(|x| (&x.0, &x.1)).collect();
+            for r in 0..NREGS {
+                if let (Some(f), Some(d)) = (self.regs[r].as_ref(), model.regs[r].as_ref()) {
+                    all.push((f, d));
+                }
+            }
+            for i in 0..all.len() {
+                for j in i + 1..all.len() {
+                    if (all[i].0 == all[j].0) != (all[i].1 == all[j].1) {
+                        ctx.violate(
+                            &["C01", "C07"],
+                            "canonicity",
+                            format!("handles obtained on different threads: == is {} but denotations are {} / {}", all[i].0 == all[j].0, all[i].1.short(), all[j].1.short()),
+                        );
+                    }
+                }
+            }
+        }
         self.x.audit(&mut s, model, ctx);
     }
 
@@ -826,6 +867,7 @@ impl Mach {
         self.x.clear();
         self.written.clear();
         self.scratch.clear();
+        self.foreign.clear();
         let (ret, before, after, terms) = self.mref.with_manager_shared(|m| {
             let b = m.num_inner_nodes() + m.num_terminals();
             let r = m.gc();
@@ -865,6 +907,91 @@ impl Mach {
         let init2 = (self.initial_nodes_for)(model.n);
         if after2 != init2 {
             ctx.violate(&["C05", "C14"], "not-initial-after-probe", format!("after the capacity probe and gc(): {} inner nodes, initial count is {}", after2, init2));
+        }
+    }
+}
+
+impl Mach {
+    /// a second register file on the same manager (for another simulated caller thread);
+    /// the shared registers are cloned handles
+    pub fn attach(&self) -> Mach {
+        Mach {
+            cfg: self.cfg.clone(),
+            mref: self.mref.clone(),
+            regs: self.regs.clone(),
+            substs: self.substs.clone(),
+            x: Extra::default(),
+            written: vec![],
+            initial_nodes_for: self.initial_nodes_for,
+            scratch: vec![],
+            foreign: vec![],
+        }
+    }
+
+    /// denotation of one handle by a walk of the nodes reachable from it (safe while other
+    /// threads operate on the manager: reachable nodes are immutable under the shared lock)
+    pub fn den_light(&self, f: &F) -> Result<(Den, usize, ERef), String> {
+        self.mref.with_manager_shared(|m| {
+            let n = m.num_levels();
+            let l2v: Vec<u32> = (0..n).map(|l| m.level_to_var(l)).collect();
+            let mut terms = HashMap::new();
+            let mut nodes: HashMap<usize, SNode> = HashMap::new();
+            let root = eref(m, f.as_edge(m), &mut terms);
+            // collect reachable nodes
+            fn visit<'id>(m: &Mgr<'id>, e: &Ed<'id>, nodes: &mut HashMap<usize, SNode>, terms: &mut HashMap<usize, TermCode>) {
+                let id = e.node_id();
+                if nodes.contains_key(&id) {
+                    return;
+                }
+                if let oxidd::Node::Inner(node) = m.get_node(e) {
+                    let children: Vec<ERef> = node.children().map(|c| eref(m, &c, terms)).collect();
+                    nodes.insert(id, SNode { level: node.level(), listed: node.level(), children, rc: node.ref_count() });
+                    for c in node.children() {
+                        visit(m, &c, nodes, terms);
+                    }
+                }
+            }
+            visit(m, f.as_edge(m), &mut nodes, &mut terms);
+            let mut s = Snapshot {
+                n,
+                v2l: (0..n).map(|v| m.var_to_level(v)).collect(),
+                l2v,
+                nodes,
+                multi_listed: vec![],
+                terms,
+                regs: vec![],
+                extra_handles: vec![],
+                num_inner: 0,
+                num_terminals: 0,
+                num_named: 0,
+                names: vec![],
+                gc_count: 0,
+                reorder_count: 0,
+                memo: HashMap::new(),
+            };
+            let d = s.den(root)?;
+            let cnt = s.reach_count(root);
+            Ok((d, cnt, root))
+        })
+    }
+
+    /// E2: judge the registers written by this instruction through walks of the handles
+    fn judge_written(&mut self, ins: &Instr, model: &Model, ctx: &mut RunCtx) {
+        let ip = prop_of(ins);
+        for &r in &self.written.clone() {
+            let (Some(f), Some(md)) = (self.regs[r as usize].as_ref(), model.regs[r as usize].as_ref()) else { continue };
+            match self.den_light(f) {
+                Err(msg) => ctx.violate(&[ip, "C07", "C03"], "walk-failed", format!("{:?}: r{}: {}", ins, r, msg)),
+                Ok((d, cnt, root)) => {
+                    ctx.obs.u64(d.digest());
+                    ctx.ids.u64(root.id as u64 * 4 + root.tag as u64);
+                    if &d != md {
+                        ctx.violate(&[ip, "C07"], "wrong-result", format!("{:?}: r{} denotes {}, model says {}", ins, r, d.short(), md.short()));
+                    } else if !ctx.order_unstable && cnt != model.canon_size(md) {
+                        ctx.violate(&["C03", "C07"], "not-canonical-size", format!("{:?}: r{} = {} has {} nodes, the reduced diagram has {}", ins, r, md.short(), cnt, model.canon_size(md)));
+                    }
+                }
+            }
         }
     }
 }
@@ -944,7 +1071,9 @@ impl Machine for Mach {
         if !self.step_common(ins, model, ctx) && !step_kind(self, ins, model, ctx) {
             ctx.stats.bump("instr.unsupported");
         }
-        if ctx.audits {
+        if ctx.concurrent {
+            self.judge_written(ins, model, ctx);
+        } else if ctx.audits {
             self.audit_impl(Some(ins), model, ctx);
         }
     }
@@ -954,6 +1083,32 @@ impl Machine for Mach {
     }
     fn finish(&mut self, model: &mut Model, ctx: &mut RunCtx) {
         self.finish_impl(model, ctx);
+    }
+    fn attach_boxed(&self) -> Box<dyn Machine + Send> {
+        Box::new(self.attach())
+    }
+    fn export_live(&mut self, model: &mut Model) -> Box<dyn std::any::Any + Send> {
+        let mut out: Vec<(F, Den)> = vec![];
+        for r in 0..NREGS {
+            if let (Some(f), Some(d)) = (self.regs[r].take(), model.regs[r].take()) {
+                out.push((f, d));
+            }
+        }
+        for sl in 0..NSUBST {
+            self.substs[sl] = None;
+            model.substs[sl] = None;
+        }
+        self.x.clear();
+        self.scratch.clear();
+        Box::new(out)
+    }
+    fn import_foreign(&mut self, handles: Box<dyn std::any::Any + Send>) {
+        if let Ok(v) = handles.downcast::<Vec<(F, Den)>>() {
+            self.foreign.extend(*v);
+        }
+    }
+    fn clear_foreign(&mut self) {
+        self.foreign.clear();
     }
     fn retry(&mut self, ins: &Instr, model: &mut Model, ctx: &mut RunCtx) -> Option<RetryInfo> {
         let keep = ins.operands();
